@@ -5,7 +5,10 @@ software block, `Node._start_up_actions`, `Node._shut_down_actions`, each TRANSL
 the statement language of Model/PowerProg.lean (`PStmt`).  Props/C12Prog.lean proves for every node that running the
 translated body is the model's function, so the tie is by meaning: a rewrite that keeps the meaning still checks.
 
-Strict: anything outside the fragment (a local variable, an unknown call, an unknown attribute, a loop with more than
+Also translated (round 7c): the interfaces' own `enable()` / `disable()` (WiredNetworkInterface, IPWiredNetworkInterface,
+WirelessNetworkInterface, IPWirelessNetworkInterface) into `IStmt`, WITH local variables and `super()`.
+
+Strict: anything outside the fragment (in a node method a local variable, an unknown call, an unknown attribute, a loop with more than
 one statement, an argument to a power call) raises Unsupported, which breaks the tie visibly.
 """
 import ast
@@ -361,6 +364,168 @@ def genTickPower (n : Node) : Node × Option Bool :=
 """
 
 
+# ------------------------------------------------------------------------------------------------ the interfaces' enable() / disable()
+AIR = "simulator/network/airspace.py"
+NODE_REF = "self._connected_node"
+LINK_REF = "self._connected_link"
+# (definition name, file, class, method, the class whose method `super()` reaches: None = the abstract NetworkInterface)
+IFACE_METHODS = [
+    ("wiredEnableProg", BASE, "WiredNetworkInterface", "enable", None),
+    ("wiredDisableProg", BASE, "WiredNetworkInterface", "disable", None),
+    ("ipWiredEnableProg", BASE, "IPWiredNetworkInterface", "enable", "WiredNetworkInterface"),
+    ("wirelessEnableProg", AIR, "WirelessNetworkInterface", "enable", None),
+    ("wirelessDisableProg", AIR, "WirelessNetworkInterface", "disable", None),
+    ("ipWirelessEnableProg", AIR, "IPWirelessNetworkInterface", "enable", "WirelessNetworkInterface"),
+]
+# statements without a modelled effect; one that mentions `self._connected_node.` / `self._connected_link.` still DEREFERENCES it
+IFACE_INERT_CALLS = ("_LOGGER.", "self._connected_node.sys_log.", "self._connected_link.endpoint_up", "self._connected_link.endpoint_down",
+                     "self.airspace.add_wireless_interface", "self.airspace.remove_wireless_interface",
+                     "self._connected_node.default_gateway_hello")
+
+
+class _Locals:
+    def __init__(self):
+        self.ix = {}
+
+    def of(self, name: str, create: bool) -> int:
+        if name not in self.ix:
+            if not create:
+                raise Unsupported(f"local variable `{name}` read before any assignment in the method")
+            self.ix[name] = len(self.ix)
+        return self.ix[name]
+
+
+def _is_super_call(e: ast.AST, meth: str) -> bool:
+    if isinstance(e, ast.Call) and _u(e.func) == f"super().{meth}":
+        if e.args or e.keywords:
+            raise Unsupported(f"arguments in `{_u(e)}`")
+        return True
+    return False
+
+
+def ibexpr(e: ast.AST, loc: _Locals) -> str:
+    if isinstance(e, ast.Constant) and isinstance(e.value, bool):
+        return f"(.lit {'true' if e.value else 'false'})"
+    s = _u(e)
+    if s == "self.enabled":
+        return ".enabled"
+    if s == NODE_REF:
+        return ".node"
+    if s == LINK_REF:
+        return ".link"
+    if isinstance(e, ast.Name):
+        return f"(.var {loc.of(e.id, False)})"
+    if isinstance(e, ast.UnaryOp) and isinstance(e.op, ast.Not):
+        return f"(.not {ibexpr(e.operand, loc)})"
+    if isinstance(e, ast.BoolOp):
+        k = "and" if isinstance(e.op, ast.And) else "or"
+        out = ibexpr(e.values[-1], loc)
+        for v in reversed(e.values[:-1]):
+            out = f"(.{k} {ibexpr(v, loc)} {out})"
+        return out
+    if isinstance(e, ast.Call) and _u(e.func) == "hasattr" and len(e.args) == 2 and _u(e.args[0]) == NODE_REF \
+            and isinstance(e.args[1], ast.Constant) and e.args[1].value == "default_gateway_hello":
+        return ".nodeHasHello"
+    if isinstance(e, ast.Compare) and len(e.ops) == 1:
+        l, op, r = e.left, e.ops[0], e.comparators[0]
+        if _u(r) == NODE_REF + ".operating_state":
+            l, r = r, l
+        if _u(l) == NODE_REF + ".operating_state" and isinstance(op, (ast.Eq, ast.Is, ast.NotEq, ast.IsNot)):
+            t = f"(.nodeStIs .{_member(r)})"
+            return t if isinstance(op, (ast.Eq, ast.Is)) else f"(.not {t})"
+        if _u(l) == "self.enabled" and isinstance(r, ast.Constant) and isinstance(r.value, bool) \
+                and isinstance(op, (ast.Eq, ast.Is, ast.NotEq, ast.IsNot)):
+            return ".enabled" if isinstance(op, (ast.Eq, ast.Is)) == r.value else "(.not .enabled)"
+        if isinstance(r, ast.Constant) and r.value is None and _u(l) in (NODE_REF, LINK_REF) and isinstance(op, (ast.Is, ast.IsNot, ast.Eq, ast.NotEq)):
+            t = ".node" if _u(l) == NODE_REF else ".link"
+            return f"(.not {t})" if isinstance(op, (ast.Is, ast.Eq)) else t
+    raise Unsupported(f"interface condition `{s}`")
+
+
+def _deref(st: ast.stmt) -> str:
+    """the dereferences a statement without modelled effect still makes"""
+    src = _u(st)
+    out = []
+    if NODE_REF + "." in src:
+        out.append(".useNode")
+    if LINK_REF + "." in src:
+        out.append(".useLink")
+    if not out:
+        return ".skip"
+    return out[0] if len(out) == 1 else f"(.seq {out[0]} {out[1]})"
+
+
+def istmt(st: ast.stmt, meth: str, loc: _Locals, where: str) -> str:
+    if isinstance(st, ast.Pass) or (isinstance(st, ast.Expr) and isinstance(st.value, ast.Constant)):
+        return ".skip"
+    if isinstance(st, ast.If):
+        c = ibexpr(st.test, loc)
+        return f"(.ite {c} {istmts(st.body, meth, loc, where)} {istmts(st.orelse, meth, loc, where)})"
+    if isinstance(st, ast.Return):
+        if st.value is None or (isinstance(st.value, ast.Constant) and st.value.value is None):
+            return ".retNone"
+        if _is_super_call(st.value, meth):
+            return ".retSuper"
+        if isinstance(st.value, ast.Name):
+            return f"(.retVar {loc.of(st.value.id, False)})"
+        return f"(.ret {ibexpr(st.value, loc)})"
+    if isinstance(st, ast.Assign) and len(st.targets) == 1:
+        tgt = st.targets[0]
+        if _u(tgt) == "self.enabled":
+            return f"(.setEnabled {ibexpr(st.value, loc)})"
+        if _u(tgt) == "self.pcap":          # the capture object: no modelled state, but its arguments read the node
+            return _deref(st)
+        if isinstance(tgt, ast.Name):
+            if _is_super_call(st.value, meth):
+                return f"(.superCall (some {loc.of(tgt.id, True)}))"
+            v = ibexpr(st.value, loc)
+            return f"(.assign {loc.of(tgt.id, True)} {v})"
+        raise Unsupported(f"{where}: assignment to `{_u(tgt)}`")
+    if isinstance(st, ast.Expr) and isinstance(st.value, ast.Call):
+        if _is_super_call(st.value, meth):
+            return "(.superCall none)"
+        f = _u(st.value.func)
+        if any(f.startswith(p) for p in IFACE_INERT_CALLS):
+            return _deref(st)
+        raise Unsupported(f"{where}: call `{_u(st)[:80]}`")
+    raise Unsupported(f"{where}: statement `{_u(st)[:80]}`")
+
+
+def istmts(body: List[ast.stmt], meth: str, loc: _Locals, where: str) -> str:
+    parts = [istmt(st, meth, loc, where) for st in body]      # in source order: local variables are numbered as they appear
+    parts = [x for x in parts if x != ".skip"]
+    out = ".skip"
+    for x in reversed(parts):
+        out = x if out == ".skip" else f"(.seq {x} {out})"
+    return out
+
+
+def iface_programs() -> dict:
+    out = {}
+    for name, path, cls, meth, sup in IFACE_METHODS:
+        c = class_def(parse(path), cls)
+        fn = find_method(c, meth)
+        if fn.args.args[1:] or fn.args.vararg or fn.args.kwarg or fn.args.kwonlyargs:
+            raise Unsupported(f"{cls}.{meth} takes arguments")
+        if sup is not None:
+            # `super()` reaches the first base that defines the method: it must be the first base
+            if not c.bases or _u(c.bases[0]) != sup:
+                raise Unsupported(f"{cls}: first base is `{_u(c.bases[0]) if c.bases else None}`, expected `{sup}`")
+        out[name] = istmts(fn.body, meth, _Locals(), f"{cls}.{meth}")
+    return out
+
+
+IFACE_RUNNERS = """
+/-! the interfaces' translated bodies as functions; `super()` bound to the translated body of the class it reaches -/
+def genWiredEnable (c : IfCtx) : IOut := runI absIface wiredEnableProg c
+def genWiredDisable (c : IfCtx) : IOut := runI absIface wiredDisableProg c
+def genIpWiredEnable (c : IfCtx) : IOut := runI genWiredEnable ipWiredEnableProg c
+def genWirelessEnable (c : IfCtx) : IOut := runI absIface wirelessEnableProg c
+def genWirelessDisable (c : IfCtx) : IOut := runI absIface wirelessDisableProg c
+def genIpWirelessEnable (c : IfCtx) : IOut := runI genWirelessEnable ipWirelessEnableProg c
+"""
+
+
 def emit() -> str:
     progs = programs()
     lines = ["import PrimaiteModel.Model.PowerProg", "namespace Primaite.Gen.PowerProg", "open Primaite.Power", ""]
@@ -371,6 +536,11 @@ def emit() -> str:
         lines.append(f"/-- `{doc[k]}`, translated statement by statement -/")
         lines.append(f"def {k} : PStmt :=\n  {v}")
     lines.append(RUNNERS)
+    for k, v in iface_programs().items():
+        c, m = next((c, m) for n, _, c, m, _ in IFACE_METHODS if n == k)
+        lines.append(f"/-- `{c}.{m}`, translated statement by statement -/")
+        lines.append(f"def {k} : IStmt :=\n  {v}")
+    lines.append(IFACE_RUNNERS)
     lines.append("end Primaite.Gen.PowerProg")
     return "\n".join(lines) + "\n"
 
